@@ -463,7 +463,8 @@ def totalsEnv (lv : List (Name × Nat)) (σ : LName → Rat) (a : Name) : Rat :=
   if labelsOf lv a > 0 then totalOf σ a (labelsOf lv a) else σ (plain a)
 
 /-- what the model-level dynamics statement asks of a base reaction: a mapped reaction is mass
-    action with distinct labelled occurrences and a map covering the product atoms; an unmapped
+    action (repeated compounds allowed) with a map covering the product atoms (`nProd ≤ len(map)`: a map that covers
+    the substrates only is accepted by the code but leaves dangling product names, finding F-C05-5); an unmapped
     reaction does not touch labelled compounds -/
 def RxnOk (lv : List (Name × Nat)) (maps : List (Name × List Nat)) (r : BRxn) : Prop :=
   match maps.lookup r.name with
